@@ -618,7 +618,7 @@ func init() {
 // accepted from then on; the accepted pipe reports it; a message over the
 // limit is not delivered, one within it is.
 func c19Real(w *W) {
-	tran := []string{"tcp", "ipc", "tls+tcp", "ws"}[w.Choose(simrt.SShape, 4)]
+	tran := w.simFallback([]string{"tcp", "ipc", "tls+tcp", "ws"}[w.Choose(simrt.SShape, 4)])
 	via := []string{"listener", "socket"}[w.Choose(simrt.SShape, 2)]
 	when := []string{"before-listen", "after-listen"}[w.Choose(simrt.SShape, 2)]
 	limit := []int{100, 1000}[w.Choose(simrt.SShape, 2)]
